@@ -261,6 +261,10 @@ std::basic_ostream<Ch, Tr> &operator<<(std::basic_ostream<Ch, Tr> &s, natural co
 
 namespace std
 {
+inline vf::natural abs(vf::natural const &v) { return v; }
+}
+namespace std
+{
 template <>
 struct hash<vf::natural>
 {
@@ -286,6 +290,13 @@ namespace vf
 {
 }
 
+// library code written for "a scalar" may call std::abs on it (fcppt::math::diff does): a number class brings its own.
+// (Declared here, ahead of the library headers, so that a qualified std::abs inside a library template finds them; a
+// harness that does not compile on some tree decides nothing.)
+namespace std
+{
+inline vf::heavy abs(vf::heavy const &v) { return vf::heavy(v.get() < 0 ? -v.get() : v.get()); }
+}
 namespace std
 {
 template <>
